@@ -206,7 +206,7 @@ class HostAudit:
     or to the harness; calls whose innermost such frame is in cfdppy/handler are recorded (the handlers must go
     through the filestore object)."""
 
-    NAMES_OS = ["stat", "lstat", "remove", "unlink", "mkdir", "rmdir", "rename", "replace", "truncate", "listdir", "scandir", "access", "chmod", "utime", "makedirs"]
+    NAMES_OS = ["open", "stat", "lstat", "remove", "unlink", "mkdir", "rmdir", "rename", "replace", "truncate", "listdir", "scandir", "access", "chmod", "utime", "makedirs"]
 
     def __init__(self):
         self.records = []
